@@ -13,7 +13,7 @@ Definition tOptNat (t : tree) : option nat := tOpt tNat t.
 Definition tOvf (t : tree) : ovf :=
   let z := tZ t in if z =? 0 then OCrop else if z =? 1 then OEllipsis else OVisible.
 
-(* [progress, transient, ovf, W, H, frender?, fbuild?, kind]  (T3 facts: today's /repo).
+(* [progress, transient, ovf, W, H, frender?, fbuild?, kind, fault is BaseException-only]  (T3 facts: today's /repo).
    kind 2 = Status: transient and overflow mode are what rich/status.py passes to Live, not what the
    harness says *)
 Definition tCfg (t : tree) : cfg :=
@@ -22,7 +22,7 @@ Definition tCfg (t : tree) : cfg :=
             (if status then status_live_transient else tB (tNth t 1))
             (if status then tOvf (I status_overflow_mode) else tOvf (tNth t 2))
             (tZ (tNth t 3)) (tZ (tNth t 4))
-            (tOptNat (tNth t 5)) (tOptNat (tNth t 6)).
+            (tOptNat (tNth t 5)) (tOptNat (tNth t 6)) (tB (tNth t 8)).
 
 Definition tOp (t : tree) : op :=
   let k := tZ (tNth t 0) in
@@ -45,8 +45,17 @@ Fixpoint run_trace (c : cfg) (s : st) (ops : list op) : st * bool * list (nat * 
       else let '(s2, r2, tr) := run_trace c s1 r in (s2, r2, here :: tr)
   end.
 
+(* (redirected, started) after every executed op *)
+Fixpoint run_obs (c : cfg) (s : st) (ops : list op) : list (bool * bool) :=
+  match ops with
+  | [] => []
+  | o :: r =>
+      let '(s1, raised) := step c s o in
+      (redir s1, started s1) :: (if raised then [] else run_obs c s1 r)
+  end.
+
 (* [cfg, f0, mode, pre, ops]: mode 0 = free-form history, 1 = with-block (pre = prints before it) *)
-Definition run_case (t : tree) : cfg * (st * bool * list (nat * nat)) :=
+Definition run_case_full (t : tree) : cfg * (st * bool * list (nat * nat)) * list (bool * bool) :=
   let c := tCfg (tNth t 0) in
   let f0 := tLines (tNth t 1) in
   let status := tZ (tNth (tNth t 0) 7) =? 2 in
@@ -57,13 +66,14 @@ Definition run_case (t : tree) : cfg * (st * bool * list (nat * nat)) :=
     | _ => o
     end in
   let ops := map fix_op (tList tOp (tNth t 4)) in
-  if tZ (tNth t 2) =? 0 then (c, run_trace c (st0 c f0) ops)
-  else let '(s, r) := run_block c f0 (tList tLines (tNth t 3)) ops in (c, (s, r, [])).
+  if tZ (tNth t 2) =? 0 then (c, run_trace c (st0 c f0) ops, run_obs c (st0 c f0) ops)
+  else let '(s, r) := run_block c f0 (tList tLines (tNth t 3)) ops in (c, (s, r, []), []).
+Definition run_case (t : tree) : cfg * (st * bool * list (nat * nat)) := fst (run_case_full t).
 
-Definition ofRun (x : cfg * (st * bool * list (nat * nat))) : tree :=
-  let '(_, (s, raised, tr)) := x in
+Definition ofRun (x : cfg * (st * bool * list (nat * nat)) * list (bool * bool)) : tree :=
+  let '(_, (s, raised, tr), obs) := x in
   L [ofStr (out s); ofB raised; ofNat (hooks s); ofB (redir s); ofB (started s);
-     ofList (fun p => ofNat (fst p)) tr].
+     ofList (fun p => ofNat (fst p)) tr; ofList (fun p => L [ofB (fst p); ofB (snd p)]) obs].
 
 Definition Hn (c : cfg) : nat := Z.to_nat (c_H c).
 
@@ -76,7 +86,7 @@ Fixpoint chunks_of (bytes : str) (pos : nat) (floor : nat) (tr : list (nat * nat
 
 Definition ops : list (string * (tree -> tree)) := [
   ("term", fun t => ofTerm (interp (tNat (tNth t 0)) init (tStr (tNth t 1))));
-  ("run", fun t => ofRun (run_case t));
+  ("run", fun t => ofRun (run_case_full t));
   ("expect", fun t =>   (* what the history says should be on screen: [live, printed, shown] *)
       let '(_, (s, _, _)) := run_case t in
       L [ofB (g_live s); ofList ofStr (g_printed s); ofList ofStr (g_shown s)]);
@@ -98,6 +108,8 @@ Definition ops : list (string * (tree -> tree)) := [
       ofB (cursor_ok_b (Hn c)
              (chunks_of (tStr (tNth t 1)) 0 0
                 (combine (map tNat (tL (tNth t 2))) (map snd tr)))));
+  ("spec.redirect_ok", fun t =>   (* [[redirected, started], ...] as observed on the implementation *)
+      ofB (redirect_ok_b (map (fun p => (tB (tNth p 0), tB (tNth p 1))) (tL t))));
   ("spec.erase_ok", fun t =>   (* [H, pre, h, bytes] *)
       ofB (erase_ok_b (tNat (tNth t 0)) (tNat (tNth t 1)) (tNat (tNth t 2)) (tStr (tNth t 3))));
   ("spec.cleanup_ok", fun t =>   (* [H, hooks_before, hooks_after, io_restored, bytes] *)
